@@ -12,7 +12,7 @@ from vv.core import Result, exc_violation, innermost_is_harness
 from vv.util import deq
 
 ID = 'C04'
-CASES = {'quick': 500, 'thorough': 30000}
+CASES = {'quick': 1500, 'thorough': 30000}
 HANG_IS_VIOLATION = True
 RULE = ('(a) snapshot: C01-style schedules (1..4 processes sharing an '
         'accumulate variable, quiet polls, chunked calls, 0..2 steps) run with '
@@ -45,7 +45,8 @@ def strategy_(draw, tier):
         return spec
     base = draw(sched.sched_specs(quiet=True, adaptive=False,
                                   precisions=(None,), max_procs=4,
-                                  steps_ok=False, deep=tier == 'thorough'))
+                                  steps_ok=False, deep=tier == 'thorough',
+                                  heavy_one_in=2))
     if len(base['procs']) < 2 and draw(st.integers(0, 3)) > 0:
         p = dict(base['procs'][0])
         p['name'] = 'p1'
